@@ -1116,6 +1116,7 @@ func c08Gen(r *kit.Rand, seeds []c08Seed, quick bool) c08Case {
 	if r.Chance(1, 40) {
 		cs.dict["Filter"] = c08HostileValue(r) // /Filter itself of the wrong type
 		cs.class = "filter-entry-wrong-type"
+		cs.maxOut = 0 // (the body is no longer an image of known size)
 	}
 	cs.desc = fmt.Sprintf("%s filter=%s parms=%s body=%d bytes", cs.class, kit.Trunc(gen.Canon(cs.dict["Filter"]), 120),
 		kit.Trunc(gen.Canon(cs.dict["DecodeParms"]), 300), len(cs.body))
